@@ -67,8 +67,8 @@ func sortSets(v any) any {
 
 // comparable reports whether version ver takes part in the cross-version comparison of q.
 func xverComparable(ver string, q *rq) bool {
-	if len(q.Flags) > 0 {
-		return false // A4
+	if len(q.Flags) > 0 || q.Only != nil {
+		return false // A4 (v0.10-only parameters)
 	}
 	if q.B != nil {
 		if q.B.Kind == "pending" {
